@@ -186,3 +186,53 @@ def r_inverse(truth, step):
         return (k + frac) * step
 
     return f
+
+
+def gen_noisy(rng, grid_step=None):
+    """Noisy record with recessions of random slope and non-monotone wiggles
+    (so that one interval crosses a level more than once) and storms whose
+    rise only roughly follows the rain.  No ground truth."""
+    step = rng.choice([1200, 1800, 3600])
+    sthr, jthr = 4.0, 8.0
+    n = rng.randint(60, 220)
+    rain = []
+    z = [rng.uniform(-100, -50)]
+    i = 0
+    wiggle = rng.random() < 0.5
+    while i < n:
+        if rng.random() < 0.08 and z[-1] < -40:
+            m = rng.randint(1, 3)
+            for _ in range(m):
+                r = rng.uniform(5, 30)
+                rain.append(r)
+                z.append(z[-1] + max(r * step / 3600.0 / 0.2 * rng.uniform(0.8, 1.2), jthr * step / 3600.0 * 1.1))
+                i += 1
+            if rng.random() < 0.9:
+                rain.append(0.3)
+                z.append(z[-1] + 0.1)
+                i += 1
+        else:
+            rain.append(0.0 if rng.random() < 0.95 else 0.2)
+            d = -rng.uniform(0.05, 1.0)
+            if wiggle and rng.random() < 0.2:
+                d = rng.uniform(0.0, 0.6)
+            z.append(z[-1] + d)
+            i += 1
+    n = len(rain)
+    z = z[:n]
+    keep = list(range(n))
+    for _ in range(rng.choice([0, 0, 1, 2])):
+        k = rng.randint(5, n - 5)
+        del keep[k:k + rng.randint(1, 3)]
+    return {
+        'kind': 'noisy',
+        'step': step,
+        't0': '2021-03-01 00:00:00',
+        'tz': 'UTC',
+        'rain': rain,
+        'et': [round(rng.uniform(0.0, 0.5), 3) for _ in range(n + 1)],
+        'z': [[k * step, z[k]] for k in keep],
+        'sthr': sthr,
+        'jthr': jthr,
+        'grid_step': grid_step or rng.choice([1.0, 0.5, 0.1, 0.3, 2.5, 5.0, 0.25]),
+    }
